@@ -34,6 +34,7 @@ fn main() {
         "C08" => c08::run(seed, tier, &mut out),
         "C08S" => c08s::run(seed, tier, &mut out),
         "C14" => c14::run(seed, tier, &mut out),
+        "C14U" => c14::run_clusters(seed, tier, &mut out),
         "C15" => c15::run(seed, tier, &mut out),
         "C16" => c16::run(seed, tier, &mut out),
         "C12" => c12::run(seed, tier, &mut out),
